@@ -170,7 +170,7 @@ def value_from_model(v, model):
 
 
 def native_call(job, timeout=120):
-    p = subprocess.run([NATIVE_PY, os.path.join(HERE, "pyvc", "native_replay.py")], input=json.dumps(job),
+    p = subprocess.run([NATIVE_PY, os.path.join(HERE, "pyvc", "native_replay.py")], input=json.dumps(job, default=str),
                        capture_output=True, text=True, timeout=timeout,
                        env={**os.environ, "PYTHONPATH": os.path.join(extract.REPO, "src")})
     try:
@@ -187,7 +187,8 @@ def default_job(plan, c, inputs):
         "ghost": {g: inputs.get(g) for g in c.ghost_params}, "native_module": plan.native_module,
         "requires": [r for r in c.requires if isinstance(r, str)],
         "ensures": [e for e in c.ensures if isinstance(e, str)],
-        "raises": {k: v for k, v in c.raises.items()},
+        "raises": {k: v for k, v in c.raises.items() if v is None or isinstance(v, str)},
+        "unevaluable": [getattr(e, "__name__", "fn") for e in list(c.ensures) + list(c.raises.values()) if callable(e)],
         "may_raise": list(c.may_raise),
     }
 
@@ -221,6 +222,14 @@ def do_replay(prop, path):
     with open(path) as f:
         r = json.load(f)
     print(json.dumps(r.get("obligation"), indent=1))
+    if r.get("bounded_script"):
+        cmd = [NATIVE_PY, os.path.join(HERE, "bounded", r["bounded_script"])] + r.get("bounded_args", [])
+        p = subprocess.run(cmd, capture_output=True, text=True, timeout=900,
+                           env={**os.environ, "PYTHONPATH": os.path.join(extract.REPO, "src") + ":" + HERE,
+                                "BOUNDED_CASE": json.dumps(r["failure"]["case"])})
+        res = json.loads(p.stdout.strip().splitlines()[-1])
+        print("bounded replay:", json.dumps(res.get("failures"))[:1500])
+        return 1 if res.get("n_failures") else 0
     job = r.get("native_job")
     if job:
         res = native_call(job)
@@ -329,6 +338,12 @@ def run_check(prop, tier, seed, args, t0):
             by_backend["ground"] = by_backend.get("ground", 0) + 1
         else:
             violations.append(ground_violation(prop, name, detail, known))
+    probe_results = []
+    for name, fn in plan.probes:
+        ok, detail, count = fn()
+        probe_results.append({"assumption": name, "ok": ok, "cases": count, "detail": detail, "label": "bounded probe of an assumption"})
+        if not ok:
+            errors.append(f"assumption probe failed: {name}: {detail}")
     violations = [v for v in violations if v is not None]
     known_hits += [v for v in violations if v["class"] == "known"]
     violations = [v for v in violations if v["class"] != "known"]
@@ -388,6 +403,7 @@ def run_check(prop, tier, seed, args, t0):
             "lemmas": [{"name": l.name, "statement": l.statement, "assumed": l.assumed} for l in plan.lemmas],
             "vacuity_guards": canary_ok,
             "ground_checks": ground_results,
+            "assumption_probes": probe_results,
             "bounded_standins": bounded_results,
             "crosscheck": cross.get("summary"),
             "undecided": [u["obligation"] for u in undecided],
@@ -503,7 +519,7 @@ def handle_refutation(plan, prop, ob, r, known):
     res = None
     if c.replay is not None:
         job = c.replay(plan, c, inputs, ob)
-    elif plan.native_module or True:
+    elif not any(callable(e) for e in list(c.ensures) + list(c.raises.values()) + list(c.requires)) and c.entry is None:
         job = default_job(plan, c, inputs)
     if job is not None:
         res = native_call(job)
@@ -577,14 +593,14 @@ def run_bounded(plan, prop, b, thorough, seed, known):
     except Exception as e:
         out["error"] = f"bounded stand-in {b.name} crashed: {type(e).__name__}: {str(e)[:300]} {locals().get('p') and (p.stdout[-600:] + p.stderr[-1500:])}"
         return out
-    out["summary"].update({"evaluations": res.get("evaluations", 0), "distinct_nontrivial": res.get("distinct_nontrivial", 0),
+    out["summary"].update({"failures": res.get("n_failures", 0), "evaluations": res.get("evaluations", 0), "distinct_nontrivial": res.get("distinct_nontrivial", 0),
                            "secs": round(time.time() - t0, 1), "samples": res.get("samples", [])[:3]})
-    for f in res.get("failures", []):
+    for f in res.get("failures", [])[:3]:
         wt = json.dumps(f, default=str)
         k = match_known(known, "bounded:" + b.name, wt)
         pth = write_replay(prop, f"bounded_{b.name}_{f.get('id', len(out['violations']))}",
                            {"property": prop, "obligation": {"name": "bounded:" + b.name}, "failure": f,
-                            "native_job": f.get("job")})
+                            "bounded_script": b.script, "bounded_args": [str(a) for a in args]})
         if k:
             what = f"{k['id']}: {k['what']} [bounded:{b.name}]"
             if not any(x["what"] == what for x in out["known"]):
